@@ -38,20 +38,15 @@ class Mesh3D(Mesh):
         if len(facets) == 0:
             # no boundary, e.g., a periodic mesh
             return np.zeros(0, dtype=np.int32)
-        boundary_edges = np.sort(np.hstack(
-            tuple([np.vstack((self.facets[itr, facets],
-                              self.facets[(itr + 1) % self.facets.shape[0],
-                              facets]))
-                   for itr in range(self.facets.shape[0])])).T, axis=1)
-        edge_candidates = np.unique(self.t2e[:, self.f2t[0, facets]])
-        A = self.edges[:, edge_candidates].T
-        B = boundary_edges
-        dims = A.max(0) + 1
-        ix = np.where(np.isin(
-            np.ravel_multi_index(A.T, dims),  # type: ignore
-            np.ravel_multi_index(B.T, dims),  # type: ignore
-        ))[0]
-        return edge_candidates[ix]
+        # the edges of an element that lie on one of its boundary facets
+        refdom = self.elem.refdom
+        edges = []
+        for i, fverts in enumerate(refdom.facets):
+            elems = np.nonzero(np.isin(self.t2f[i], facets))[0]
+            for j, everts in enumerate(refdom.edges):
+                if set(everts) <= set(fverts):
+                    edges.append(self.t2e[j, elems])
+        return np.unique(np.concatenate(edges)).astype(np.int32)
 
     def interior_edges(self) -> ndarray:
         """Return an array of interior edge indices."""
